@@ -16,6 +16,8 @@ E12 the lowering lowers every child expression of a node once: no child is clone
 E13 every unrolled loop iteration is lowered in a scope of its own (push / pop inside the iteration)
 E14 a function body is lowered on the top-level scope plus its parameters (callee: Env::outermost_scope; entry function: parameters in a scope above the consts)
 E15 an assignment reads the assigned variable after its index and value expressions were lowered (their own writes to it survive)
+E17 Env::get / Env::assign_mut walk the scopes innermost first and stop at the first hit
+E16 operators, casts and accesses lower every operand on every path (no value-based shortcut skips an operand)
 E10 cross-reference: the accessor copy of the array read tree agrees with the expression copy (C01-V8)
 """
 from .. import mir, protocol
@@ -866,5 +868,97 @@ def rule_e15(ctx):
     return res
 
 
+def rule_e17(ctx):
+    """`assigning to a variable never changes any other variable`, `a shadowing binding ends with its scope`: look-up and assignment
+    both mean the innermost binding of a name - the scopes are walked innermost first, and the walk ends at the first hit."""
+    res = RuleResult("E17", "Env::get and Env::assign_mut walk the scopes innermost first and stop at the first scope that binds the name")
+    for name, value_arg in (("get", None), ("assign_mut", 3)):
+        fid = "env::Env::<T>::%s" % name
+        if not ctx.has_fn(fid):
+            raise AnchorMissing("E17: %s not found" % fid)
+        body = ctx.body(fid)
+        loops = [lp for lp in body.loops() if any(body.term(b) and body.term(b)["k"] == "call" and mir.last_seg(mir.callee(body.term(b)) or "") == "next" for b in lp["body"])]
+        if len(loops) != 1:
+            raise AnchorMissing("E17: %s does not walk the scopes in one loop" % fid)
+        lp = loops[0]
+        rev = any(mir.last_seg(mir.callee(t) or "") == "rev" for _, t in body.calls())
+        if not rev:
+            res.bad(Finding("E17", fid, "scopes walked outermost first", "the scope list is not reversed before it is walked: an outer binding of the name is found before the inner one that shadows it", body.fn["sp"]))
+        else:
+            res.ok({"function": fid, "verdict": "scopes walked in reverse (innermost first)"})
+        if value_arg is None:
+            hits = [b for b in range(body.n) if not body.blocks[b]["cleanup"] for st in body.blocks[b]["stmts"]
+                    if st["k"] == "assign" and st["place"]["l"] == 0 and st["rv"]["k"] == "aggregate" and st["rv"].get("variant") == "Some"]
+        else:
+            hits = []
+            for b in range(body.n):
+                if body.blocks[b]["cleanup"] or not body.path(lp["header"], [b]):
+                    continue
+                t = body.term(b)
+                uses = [st["rv"] for st in body.blocks[b]["stmts"] if st["k"] == "assign"]
+                ls = set()
+                for rv in uses:
+                    ls |= mir.rv_locals(rv)
+                if t and t["k"] == "call":
+                    ls |= {a["place"]["l"] for a in t["args"] if a["k"] in ("copy", "move")}
+                if value_arg in ls:
+                    hits.append(b)
+        if not hits:
+            raise AnchorMissing("E17: no hit site found in the scope loop of %s" % fid)
+        again = [h for h in hits if body.path(h, [lp["header"]], succ=lambda x: [y for y in body.succs(x) if not body.blocks[y]["cleanup"]])]
+        if again:
+            res.bad(Finding("E17", fid, "scope walk continues after the first hit",
+                            "after the name was found in a scope the loop goes on to the enclosing scopes: an assignment is written into every binding of the name "
+                            "(the shadowed outer variable, a parameter or a const changes too)" if value_arg else "the look-up does not stop at the innermost binding",
+                            body.term(again[0])["sp"] if body.term(again[0]) else body.fn["sp"]))
+        else:
+            res.ok({"function": fid, "verdict": "the walk ends at the first scope that binds the name"})
+    return res
+
+
+E16_TABLE = [("Op::%s" % v, {C02.INNER: "Op", C02.OP0: v}, [("as Op", "1"), ("as Op", "2")])
+             for v in ("Add", "Sub", "Mul", "Div", "Mod", "BitAnd", "BitXor", "BitOr", "ShiftLeft", "ShiftRight", "Eq", "NotEq", "GreaterThan", "LessThan")] + [
+    ("UnaryOp", {C02.INNER: "UnaryOp"}, [("as UnaryOp", "1")]),
+    ("Cast", {C02.INNER: "Cast"}, [("as Cast", "1")]),
+    ("ArrayAccess", {C02.INNER: "ArrayAccess"}, [("as ArrayAccess", "0"), ("as ArrayAccess", "1")]),
+    ("TupleAccess", {C02.INNER: "TupleAccess"}, [("as TupleAccess", "0")]),
+    ("StructAccess", {C02.INNER: "StructAccess"}, [("as StructAccess", "0")]),
+]
+
+
+def rule_e16(ctx):
+    """Operands are expressions with effects of their own (blocks that assign, operations that fail).  An operator, cast or access
+    evaluates each of its operands whatever their values are, so the lowering of the node has to lower every operand on every path
+    (a shortcut such as `x * 0 = 0` that skips the other operand drops its assignments)."""
+    res = RuleResult("E16", "operators, casts and accesses lower every operand on every path through their arm")
+    f = C02.fn_of(ctx, C02.EXPR_COMPILE)
+    body = ctx.body(f["id"])
+    rets = body.returns()
+    n = 0
+    for label, assume, kids in E16_TABLE:
+        succ = body.pruned_succ(assume)
+        region = set(body.reachable([0], succ=succ))
+        if len(region) == len(body.reachable([0])) or len(region) < 4:
+            raise AnchorMissing("E16: cannot isolate the %s arm" % label)
+        nsucc = lambda x, succ=succ: [y for y in succ(x) if not body.blocks[y]["cleanup"]]
+        for kid in kids:
+            n += 1
+            via = set()
+            for b in region:
+                t = body.term(b)
+                if t and t["k"] == "call" and C02._is_compile_call(ctx, t) and t["args"] and t["args"][0]["k"] in ("copy", "move"):
+                    if any(r == C02.SELF1 and tuple(p[:3]) == ("inner",) + kid for (r, p) in body.trace(t["args"][0]["place"])):
+                        via.add(b)
+            w = body.path(0, rets, blocked=via, succ=nsucc) if via else [0]
+            if w:
+                res.bad(Finding("E16", f["id"], "%s: operand %s is not lowered on some path" % (label, kid[1]),
+                                "a path through the %s arm returns without lowering this operand: assignments and failing operations inside it are dropped "
+                                "(`({ n = n + 1u8; n }) * 0u8` leaves n unchanged)" % label,
+                                body.term(w[-2])["sp"] if len(w) > 1 and body.term(w[-2]) else f["sp"], witness=["bb%d" % x for x in w[-8:]]))
+            else:
+                res.ok({"construct": label, "operand": kid[1], "verdict": "lowered on every path"})
+    return res
+
+
 def run(ctx):
-    return ctx.run_rules([rule_e1, rule_e2, rule_e3, rule_e4, rule_e5, rule_e6, rule_e7, rule_e8, rule_e9, rule_e10, rule_e11, rule_e12, rule_e13, rule_e14, rule_e15])
+    return ctx.run_rules([rule_e1, rule_e2, rule_e3, rule_e4, rule_e5, rule_e6, rule_e7, rule_e8, rule_e9, rule_e10, rule_e11, rule_e12, rule_e13, rule_e14, rule_e15, rule_e16, rule_e17])
